@@ -199,7 +199,8 @@ CLAIMED = {
    category="other",
    text="PARTIAL - deductive proof of the clauses listed here on the real source, bounded stand-ins (never counted as proved) for the rest of the property. The reader queue, consumer and producer side, as sequential effect-trace contracts on the real source: QueueReader.readlines (polling form) and "
         "_read_all_lines return exactly the lines of every chunk they dequeued, in order - nothing dropped, nothing twice (loop invariant lines == "
-        "flat(dequeued), flat given by its two defining axioms); read_queue dequeues one chunk per call and nothing on a timeout; is_fully_read answers "
+        "flat(dequeued), flat given by its two defining axioms); QueueReader.read / readline return exactly the concatenation of the chunks they "
+        "dequeued and iterqueue yields exactly the dequeued chunks in order; read_queue dequeues one chunk per call and nothing on a timeout; is_fully_read answers "
         "True only with `closed` set and with emptiness sampled LAST, after the producer thread was seen finished (the only sampling order that is right "
         "under every interleaving); populate_fd_queue queues exactly the non-empty chunks in the order read, stops only at end of stream or on a read "
         "error, and flags the reader closed after the last chunk is queued. Bounded stand-in (not proved): real $() / !() (.out, .raw_out, iteration) / "
@@ -208,7 +209,7 @@ CLAIMED = {
    note="NOT covered by any contract: thread interleavings themselves (the property's quantifier over schedules) - the is_fully_read clause is the sequential "
         "obligation that makes the protocol schedule-independent, but PopenThread.run / _read_write, ProcProxyThread.run, CommandPipeline.iterraw / "
         "tee_stdout / _end, the final drain after wait and the closing order of previous stages are unverified (bounded check only, one schedule per "
-        "case). QueueReader.read / readline / iterqueue (same loop shape) not under contract. Observation (not claimed either way): whether a one-line "
+        "case). Observation (not claimed either way): whether a one-line "
         "`.out` keeps its final newline depends on how many chunks the line arrived in. Trusted: pyvc engine + the two flat axioms + z3.",
    design="§3 C06"),
  "C08": dict(
